@@ -1,8 +1,13 @@
 import Driver.Basic
 import OxyModel.Model.CBreaker
+import OxyModel.Model.CBreakerHist
 
-/-! Driver for the circuit-breaker protocol (C05, C12, C18; see `harness/cmd/c05`): runs `CB.arrive` /
-`CB.complete` — the definitions the theorems are about.
+/-! Driver for the circuit-breaker protocol (C05, C12, C18; see `harness/cmd/c05`): runs `CB.arrive` and the
+composite `CBH.recordH` / `CBH.checkAndSetH` / `CBH.completeH` (breaker × latency histogram) — the definitions the
+theorems are about.  The latency of a completion is its finish time minus the start time of that id (for a parked
+request: the instant it was decided); the decision uses the MODEL's `LatencyAtQuantileMS` values.  When the op line
+carries `q=` (the implementation's values, from the annotate pass) and they differ from the model's, the output
+line ends in ` hist-mismatch model=<v,…> impl=<v,…>` (the harness never prints that: it shows as a divergence).
 
     cfg fb=<ns> rec=<ns> cp=<ns> px=<condition, prefix form> [go=<condition, Go syntax: harness only>]
     at <ns> | adv <ns>            -> ok
@@ -75,6 +80,8 @@ structure St where
   brk : Brk
   now : Nat                 -- protocol time: ns since hx.Base
   inflight : List String
+  starts : List (String × Nat) := []     -- protocol time at which `serve` began for each request in flight
+  hist : Hist.Rolling := Hist.Rolling.new
   armed : Nat := 0
   parked : Option String := none
   fx : Bool := true
@@ -87,10 +94,32 @@ def stateStr (b : Brk) : String :=
   | .tripped => "tripped until=" ++ toString (b.until_ - RCnt.baseSinceZeroNs)
   | .recovering => "recovering until=" ++ toString (b.until_ - RCnt.baseSinceZeroNs)
 
-def oracle (c : Cfg) (f : List String) : Oracle :=
+/-- THE float step of `hdrhistogram.ValueAtPercentile` for the literal `num/den` (see `Model/Hist.lean`):
+    `if percentile > 100 { percentile = 100 }; int64(((percentile / 100) * float64(totalCount)) + 0.5)` in IEEE doubles,
+    the same operations in the same order; the conversion truncates toward zero, a negative or NaN value gives a count
+    `≤ 0` on which the loop breaks at once, i.e. 0 -/
+def floatK (num den total : Nat) : Nat :=
+  let p : Float := Float.ofNat num / Float.ofNat den
+  let p := if p > 100 then 100 else p
+  let x := ((p / 100) * Float.ofNat total) + 0.5
+  if x < 0 then 0 else x.toUInt64.toNat
+
+/-- the model's `LatencyAtQuantileMS` values for the condition's quantile literals, as on an op line -/
+def orcStr (c : Cfg) (r : Hist.Rolling) : String :=
+  ",".intercalate ((CBH.oracleOf floatK c r).map fun e => toString e.2)
+
+/-- ` hist-mismatch …` when the op line carries `q=` and it is not what the model computes from its histogram -/
+def mismatch (c : Cfg) (r : Hist.Rolling) (f : List String) : String :=
   match Driver.kv f "q" with
-  | none => []
-  | some v => c.cond.quantiles.zip ((v.splitOn ",").map fun x => x.toNat?.getD 0)
+  | none => ""
+  | some v =>
+    let m := orcStr c r
+    if v == m then "" else " hist-mismatch model=" ++ m ++ " impl=" ++ v
+
+/-- latency in ns of the request `id` completing now -/
+def latency (s : St) (id : String) : Nat := s.now - (s.starts.lookup id).getD s.now
+
+def forget (l : List (String × Nat)) (id : String) : List (String × Nat) := l.filter (·.1 != id)
 
 def init (f : List String) : Option St × String :=
   match Driver.kv f "px" with
@@ -142,7 +171,7 @@ def step0 (s : St) : List String → St × String
       let rb := arrive s.cfg ra.2 (abs s.now)
       let str := fun (o : Out) => match o with | .pass => "pass" | .fallback => "fallback"
       let fl := (if ra.1 == .pass then [pid] else []) ++ (if rb.1 == .pass then [id] else [])
-      ({ s with brk := rb.2, inflight := fl ++ s.inflight, parked := none },
+      ({ s with brk := rb.2, inflight := fl ++ s.inflight, starts := fl.map (·, s.now) ++ s.starts, parked := none },
         "unparked " ++ str ra.1 ++ " then " ++ str rb.1 ++ " " ++ stateStr rb.2)
     | none =>
     if s.armed > 0 && s.brk.state != .standby then
@@ -150,46 +179,49 @@ def step0 (s : St) : List String → St × String
     else
     let r := arrive s.cfg s.brk (abs s.now)
     match r.1 with
-    | .pass => ({ s with brk := r.2, inflight := id :: s.inflight }, "pass " ++ stateStr r.2)
+    | .pass => ({ s with brk := r.2, inflight := id :: s.inflight, starts := (id, s.now) :: s.starts }, "pass " ++ stateStr r.2)
     | .fallback => ({ s with brk := r.2 }, "fallback " ++ stateStr r.2)
   | ["unpark", id] =>
     if s.parked != some id then (s, "bad-op") else
     let r := arrive s.cfg s.brk (abs s.now)
     match r.1 with
-    | .pass => ({ s with brk := r.2, inflight := id :: s.inflight, parked := none }, "pass " ++ stateStr r.2)
+    | .pass => ({ s with brk := r.2, inflight := id :: s.inflight, starts := (id, s.now) :: s.starts, parked := none }, "pass " ++ stateStr r.2)
     | .fallback => ({ s with brk := r.2, parked := none }, "fallback " ++ stateStr r.2)
   | "finish" :: id :: code :: rest =>
     match code.toNat? with
     | none => (s, "bad-op")
     | some code =>
       if !s.inflight.contains id then (s, "bad-op") else
-      -- every LatencyAtQuantileMS of the condition needs its oracle value on the op line (no silent default)
-      if (oracle s.cfg rest).length < s.cfg.cond.quantiles.length then (s, "bad-op") else
       -- a parked request holds the breaker's lock (the Warn is logged under it): it is decided first
       let (s, pre) := match s.parked with
         | none => (s, "")
         | some pid =>
           let r := arrive s.cfg s.brk (abs s.now)
           match r.1 with
-          | .pass => ({ s with brk := r.2, inflight := pid :: s.inflight, parked := none }, "unparked pass " ++ stateStr r.2 ++ " ")
+          | .pass => ({ s with brk := r.2, inflight := pid :: s.inflight, starts := (pid, s.now) :: s.starts, parked := none }, "unparked pass " ++ stateStr r.2 ++ " ")
           | .fallback => ({ s with brk := r.2, parked := none }, "unparked fallback " ++ stateStr r.2 ++ " ")
-      let r := complete s.cfg s.brk (abs s.now) code (oracle s.cfg rest)
-      ({ s with brk := r.1, inflight := s.inflight.erase id }, pre ++ "done " ++ toString code ++ " " ++ stateStr r.1)
+      -- metrics.Record(code, latency) (counters and histogram), then checkAndSet on the model's own quantile values
+      let rec_ := CBH.recordH (s.brk, s.hist) (abs s.now) code (latency s id)
+      let mm := mismatch s.cfg rec_.2 rest
+      let r := CBH.checkAndSetH floatK s.cfg rec_ (abs s.now)
+      ({ s with brk := r.1.1, hist := r.1.2, inflight := s.inflight.erase id, starts := forget s.starts id },
+        pre ++ "done " ++ toString code ++ " " ++ stateStr r.1.1 ++ mm)
   | "finish2" :: id1 :: c1 :: id2 :: c2 :: rest =>
     match c1.toNat?, c2.toNat?, s.parked with
     | some c1, some c2, some pid =>
       let keeps := (s.brk.state == .recovering && abs s.now ≤ s.brk.until_) || (s.brk.state == .tripped && abs s.now < s.brk.until_)
       if !s.inflight.contains id1 || !s.inflight.contains id2 || id1 == id2 || !keeps then (s, "bad-op") else
-      if (oracle s.cfg rest).length < s.cfg.cond.quantiles.length then (s, "bad-op") else
       -- Record_1, Record_2 (no lock needed), the parked request's decision (it holds the lock), then the two checkAndSet
-      let b1 := record (record s.brk (abs s.now) c1) (abs s.now) c2
-      let ra := arrive s.cfg b1 (abs s.now)
-      let k1 := checkAndSet s.cfg ra.2 (abs s.now) (oracle s.cfg rest)
-      let k2 := checkAndSet s.cfg k1.1 (abs s.now) (oracle s.cfg rest)
+      let b1 := CBH.recordH (CBH.recordH (s.brk, s.hist) (abs s.now) c1 (latency s id1)) (abs s.now) c2 (latency s id2)
+      let mm := mismatch s.cfg b1.2 rest
+      let ra := arrive s.cfg b1.1 (abs s.now)
+      let k1 := CBH.checkAndSetH floatK s.cfg (ra.2, b1.2) (abs s.now)
+      let k2 := CBH.checkAndSetH floatK s.cfg k1.1 (abs s.now)
       let fl := ((s.inflight.erase id1).erase id2)
-      let (fl, ans) := match ra.1 with | .pass => (pid :: fl, "pass") | .fallback => (fl, "fallback")
-      ({ s with brk := k2.1, inflight := fl, parked := none },
-        "unparked " ++ ans ++ " done2 " ++ toString c1 ++ " " ++ toString c2 ++ " " ++ stateStr k2.1)
+      let st := forget (forget s.starts id1) id2
+      let (fl, st, ans) := match ra.1 with | .pass => (pid :: fl, (pid, s.now) :: st, "pass") | .fallback => (fl, st, "fallback")
+      ({ s with brk := k2.1.1, hist := k2.1.2, inflight := fl, starts := st, parked := none },
+        "unparked " ++ ans ++ " done2 " ++ toString c1 ++ " " ++ toString c2 ++ " " ++ stateStr k2.1.1 ++ mm)
     | _, _, _ => (s, "bad-op")
   | ["burst", n, d] =>
     match n.toNat?, d.toNat? with
